@@ -70,6 +70,12 @@ def generate(rng, tier):
                 if rng.random() < 0.6:
                     op["n"] = rng.randint(1, 3)
                 ops.append(op)
+            if rng.random() < 0.25:
+                # a patient receiver: gives up after a while (waiting on the empty queue, queued
+                # behind another receiver, or in its loop body) and carries on - it asks again
+                # later as a new receiver; nothing it was about to get may be lost
+                ops[-1] = {"op": "scope", "label": "T%d_%d" % (c, len(ops)), "children": [],
+                           "until": {"k": "delay", "d": rng.choice(DELAYS)}, "body": [ops[-1]]}
             _gap(rng, ops)
         actors.append({"name": "c%d" % c, "ops": ops})
     rng.shuffle(actors)
@@ -253,7 +259,9 @@ def _check_one(rec, qname):
                     % (actor, firm))
         elif kind in ("get!", "iter!"):
             waiting.pop(actor, None)
-            if not excused(actor, tick):
+            timeout = isinstance(ev[-1], tuple) and ev[-1][0] == "CancelScope" and \
+                str(ev[-1][1]).startswith("scope:T")      # the receiver's own patience ran out
+            if not excused(actor, tick) and not timeout:
                 bad("receive-failed", "%s: %s raised %r" % (actor, kind, ev[-1]))
     leftovers = [v for v, opt in buffer if not opt]
     if leftovers:
